@@ -44,6 +44,19 @@ def gen_cases(rng, tier):
         for val in vals:
             for route in ('token', 'pack', 'build', 'kw_len', 'kw_name'):
                 yield {'op': 'token_len', 'kind': k, 'val': val, 'stated': 0, 'bad_digit': False, 'route': route, 'cls': rng.choice(CLASSES)}
+    # e8m0mxfp holds powers of two only: anything else - also a float a few ulp away from a power of two - is refused, never rounded (every creation route)
+    import math
+    for _ in range(60 if tier == 'quick' else 900):
+        k = rng.choice([-126, -60, -20, -4, -1, 0, 1, 3, 4, 10, 20, 52, 64, 100, 127])
+        p2 = 2.0 ** k
+        step = lambda x, n, d: x if n == 0 else step(math.nextafter(x, d), n - 1, d)
+        f = rng.choice([step(p2, 1, math.inf), step(p2, 2, math.inf), step(p2, 3, math.inf), step(p2, 1, 0.0), step(p2, 2, 0.0), p2 * 1.5, p2 * 1.0000001, -p2, 3.0, p2, p2])
+        yield {'op': 'e8m0', 'f': f.hex(), 'route': rng.choice(['kw', 'token', 'pack', 'build', 'setattr', 'array']), 'cls': rng.choice(CLASSES)}
+    # an Array of 'bits:n' items takes bitstrings of exactly n bits (objects and strings alike), by every item route
+    for _ in range(60 if tier == 'quick' else 900):
+        n = rng.choice([1, 3, 8, 12])
+        m = rng.choice([n, n, 0, n - 1, n + 1, 2 * n])
+        yield {'op': 'array_bits', 'n': n, 'val': rand_bits(rng, m), 'as': rng.choice(['Bits', 'BitArray', 'BitStream', 'str']), 'route': rng.choice(['setitem', 'setslice', 'extslice', 'append', 'insert', 'extend', 'init']), 'cls': 'Bits'}
     # offset / length windows beyond the supplied bytes, bytearray, bitarray, BytesIO, file name or file handle (cases, runner and oracle of C17)
     import random as _random
     from props import c17
@@ -59,6 +72,43 @@ def run_impl(c):
     if op == 'window':
         from props import c17
         return c17.run_impl(c)
+    if op == 'e8m0':
+        x = float.fromhex(c['f']); r = c['route']
+        def f():
+            if r == 'kw': return C(e8m0mxfp=x).bin
+            if r == 'token': return C(f'e8m0mxfp={x!r}').bin
+            if r == 'pack': return pack('e8m0mxfp', x).bin
+            if r == 'build': return Dtype('e8m0mxfp').build(x).bin
+            if r == 'setattr':
+                a = BitArray('0xff'); before = a.bin
+                try: a.e8m0mxfp = x
+                except Exception as e: return ['raised', exn_name(e), a.bin == before]
+                return a.bin
+            a = Array('e8m0mxfp', [1.0, 2.0]); before = a.data.bin
+            try: a[1] = x
+            except Exception as e: return ['raised', exn_name(e), a.data.bin == before]
+            return a.data.bin[8:]
+        return attempt(f)
+    if op == 'array_bits':
+        n, val = c['n'], c['val']
+        v = ('0b' + val if val else '') if c['as'] == 'str' else getattr(bitstring, c['as'])(bin=val)
+        def f():
+            r = c['route']
+            if r == 'init':
+                try: a = Array(f'bits{n}', [Bits(n), v])
+                except Exception as e: return ['raised', exn_name(e), True]
+                return [a.data.bin, len(a)]
+            a = Array(f'bits{n}', [Bits(n), Bits(n), Bits(n)]); before = a.data.bin
+            try:
+                if r == 'setitem': a[1] = v
+                elif r == 'setslice': a[0:1] = [v]
+                elif r == 'extslice': a[::2] = [Bits(n), v]
+                elif r == 'append': a.append(v)
+                elif r == 'insert': a.insert(1, v)
+                elif r == 'extend': a.extend([v])
+            except Exception as e: return ['raised', exn_name(e), a.data.bin == before]
+            return [a.data.bin, len(a)]
+        return attempt(f)
     def mk(name, n, value, route):
         tok = f'{name}:{n}'
         if route == 'kw_len': return C(**{name: value, 'length': n}).bin
@@ -138,6 +188,26 @@ def oracle(c, obs):
     if op == 'window':
         from props import c17
         return c17.oracle(c, obs)
+    if op == 'e8m0':
+        import math
+        x = float.fromhex(c['f'])
+        ok = x > 0 and math.frexp(x)[0] == 0.5 and -127 <= math.frexp(x)[1] - 1 <= 127
+        rej = (obs[0] == 'err' and obs[1] == 'ValueError') or (obs[0] == 'ok' and isinstance(obs[1], list) and obs[1][:2] == ['raised', 'ValueError'])
+        if ok:
+            exp = format(math.frexp(x)[1] - 1 + 127, '08b')
+            return None if obs == ('ok', exp) else f"e8m0mxfp = {c['f']} (a power of two) via {c['route']}: got {obs}, expected {exp}"
+        if not rej: return f"e8m0mxfp = {c['f']} is not a power of two in range, yet {c['route']} accepted it: {obs}"
+        if obs[0] == 'ok' and not obs[1][2]: return f"e8m0mxfp = {c['f']} via {c['route']} was refused but the target changed"
+        return None
+    if op == 'array_bits':
+        fits = len(c['val']) == c['n']
+        if obs[0] != 'ok': return f"array_bits {c} raised {obs}"
+        o = obs[1]
+        if fits:
+            return None if o[0] != 'raised' and len(o[0]) % c['n'] == 0 else f"Array('bits{c['n']}') refused / mangled an item of exactly {c['n']} bits via {c['route']}: {o}"
+        if o[0] != 'raised' or o[1] not in ('ValueError',): return f"Array('bits{c['n']}') accepted a {len(c['val'])}-bit {c['as']} item via {c['route']}: {o}"
+        if not o[2] and c['route'] != 'extend': return f"Array('bits{c['n']}') refused a {len(c['val'])}-bit item via {c['route']} but changed"
+        return None
     rejected = (obs[0] == 'err' and obs[1] == 'ValueError') or (obs[0] == 'ok' and isinstance(obs[1], list) and obs[1][0] == 'raised' and obs[1][1] == 'ValueError')
     if obs[0] == 'ok' and isinstance(obs[1], list) and obs[1][0] == 'raised':
         if not obs[1][2]: return f"{c}: the rejected assignment changed the target"
